@@ -119,21 +119,24 @@ CHECKS = {'C09': {'category': 'translation_validation',
          'note': 'SC interleavings only (threads serialised by a baton at every atomic operation); memory orders not modelled; explored schedules only for the history/oracle/trace ties; Lean kernel '
                  '+ propext/Classical.choice/Quot.sound.'},
  'C13': {'category': 'translation_validation',
+         'technique': 'Lean 4: MichaelList and LazyList machines proved linearizable to the map specification for all schedules incl. hindsight cases + atomic-trace conformance of both real lists + '
+                      'histories of every ordered-list variant judged by the verified linearizability checker + kept witness of the IterableList defect',
+         'text': 'C13_michael_linearizable and C13_lazy_linearizable (Herlihy-Wing with pending operations), the effect-instant / hindsight theorems, chain_sorted, marked_frozen, erase_once, '
+                 'lock_discipline hold for any number of threads and keys; both real lists are replayed against their machines (next words with mark bits, node locks, results). IterableList: its '
+                 'machine is in C19; its linearizability is FALSE of the code (known finding, find_prev race, runs as a kept corpus case). KV forms, RCU and nogc specialisations: histories judged '
+                 'against Spec.mapConc / Spec.map on explored schedules.',
          'note': 'SC interleavings only (threads serialised by a baton at every atomic operation); memory orders not modelled; explored schedules only for the history/oracle/trace ties; Lean kernel '
-                 '+ propext/Classical.choice/Quot.sound. Garbage-collected heap in the machine (no node reuse: what C01/C02 provide).',
-         'technique': 'Lean 4: MichaelList machine (search with helping, link, mark, single unlink attempt) proved linearizable to the map specification for all schedules incl. hindsight cases + '
-                      'atomic-trace conformance of the real intrusive MichaelList + histories of every ordered-list variant judged by the verified linearizability checker',
-         'text': 'C13_michael_linearizable (Herlihy-Wing with pending operations), C13_michael_effect_instant / absent_hindsight / present_hindsight, chain_sorted, marked_frozen, erase_once hold for '
-                 "any number of threads and keys. The real list is replayed against the machine (head and every node's next word, mark bits, results). LazyList, IterableList, KV forms, RCU and nogc "
-                 "specialisations have no machine: their histories (and MichaelList's) are judged against Spec.mapConc / Spec.map by the verified checker on explored schedules."},
+                 '+ propext/Classical.choice/Quot.sound. Garbage-collected heap in the machines (no node reuse: what C01/C02 provide).'},
  'C14': {'category': 'translation_validation',
+         'technique': 'Lean 4: SplitListSet machine (dynamic bucket table, lazy recursive bucket initialisation, growth) proved linearizable for all schedules and hash functions, instantiated with '
+                      'the C27 split-order theorems + atomic-trace conformance + locality theorem for bucket-array tables (MichaelHashSet) + histories of MichaelHashSet/Map, SplitListSet/Map, '
+                      'FeldmanHashSet/Map judged by the verified checker',
+         'text': 'C14_splitlist_linearizable, C14_splitlist_bucket_table, C14_splitlist_bucket_sees, C14_splitlist_growth, C14_cfg64_hyp hold for every schedule, thread count, key set and hash '
+                 'functor; the real split list is replayed against the machine in three hash modes. MichaelHashSet over MichaelList / LazyList: locality (Base/Locality) + '
+                 'C14_table_of_linearizable_buckets + the C13 list theorems, at the level of histories. Feldman sets / maps (multi-level array, array-node expansion) have no machine: decided by '
+                 'histories on explored schedules, including colliding hashes and the *_with overloads.',
          'note': 'SC interleavings only (threads serialised by a baton at every atomic operation); memory orders not modelled; explored schedules only for the history/oracle/trace ties; Lean kernel '
-                 '+ propext/Classical.choice/Quot.sound. SplitList / Feldman: no algorithm model.',
-         'technique': "Lean 4: locality of linearizability proved for the framework's definition + 'a table of linearizable bucket maps routed by any bucket function is a linearizable map' + "
-                      'histories of MichaelHashSet/Map, SplitListSet/Map, FeldmanHashSet/Map judged by the verified checker',
-         'text': "Base/Locality proves Herlihy-Wing Theorem 1 for Base/Lin's definition (constructive merge by minimal invocation among the component heads) and Base/LocalityMap lifts it to Spec.map "
-                 "for keyed operations (C14_table_of_linearizable_buckets); together with C13's MichaelList theorem this gives MichaelHashSet over MichaelList at the level of histories. All variants "
-                 '(including growth of split lists and Feldman array-node expansion, colliding hashes, the *_with overloads) are decided by histories of the real code on explored schedules.'},
+                 '+ propext/Classical.choice/Quot.sound. FeldmanHashSet/Map: no algorithm model.'},
  'C15': {'category': 'translation_validation',
          'note': 'SC interleavings only (threads serialised by a baton at every atomic operation); explored schedules only (seeded random, PCT, exhaustive <=1/<=2 preemptions of small programs); '
                  'memory orders not modelled; Lean kernel + propext/Classical.choice/Quot.sound for the checker theorem.',
@@ -154,17 +157,18 @@ CHECKS = {'C09': {'category': 'translation_validation',
                  'under one unfair schedule is recorded, not a violation).',
          'note': 'SC interleavings only; memory orders not modelled; the bucket containers (std::list etc.) are sequential code under a lock = one step; explored schedules only for the ties; Lean '
                  'kernel + propext/Classical.choice/Quot.sound.'},
- 'C23': {'category': 'translation_validation',
-         'technique': 'Lean 4: 28-pc atomic-step machine of the flat-combining kernel with an 18-clause inductive invariant (mutual exclusion of combiners, exactly-once, response after execution, '
-                      'pending not executed, owner republishes) for all schedules + batch theorems of the containers + histories of every flat-combining container and a reclamation oracle on the '
-                      'real code',
-         'text': 'Algo/FC/Kernel models acquire_record, publish, combine, try_combining, combining (useful/empty passes), combining_pass, compact_list (deactivation loop), wait_for_combining with '
-                 'back-off and release_record with ages and compact factor; C23_mutex, C23_exactly_once, C23_response_after_exec, C23_pending_not_executed, C23_owner_republishes, '
-                 'C23_active_unlinked_window hold for any number of threads. The machine is a hand model (publication list as a set, one record per thread, no thread exit); it is tied to the code '
-                 "through the containers' histories (a request executed twice, never, or answered early breaks linearizability) and the record-reclamation clause is decided by a quarantining "
-                 'allocator that checks, when a record is freed, that it is unreachable from the publication list (this found the compact_list defect, fixed).',
+ 'C23': {'category': 'proof',
+         'technique': 'Lean 4: flat-combining kernel machine with the publication list in its real order (27-clause inductive invariant: mutual exclusion of combiners, exactly once, response after '
+                      'execution, pending not executed, owner republishes, combiner assert) for all schedules + atomic-trace conformance of the real kernel + batch theorems with a differential tie '
+                      'on the real containers + histories of every flat-combining container + reclamation oracle',
+         'text': 'Algo/FC/KernelR models acquire_record, publish, combine, try_combining, combining, combining_pass over the list in list order, both loops of compact_list, wait_for_combining with '
+                 'back-off and republish, release_record; C23R_mutex, C23R_exactly_once, C23R_response_after_exec, C23R_pending_not_executed, C23R_owner_republishes, C23R_no_request_lost, '
+                 'C23R_combiner_assert hold for any number of threads, compact factor and pass count. The real kernel (static records, counter container) is replayed against the machine step by step '
+                 "(lock word, every record word, list links, fc_apply as a pseudo-event, results). The containers' batch functions are proved to refine a permutation of the batch (C23Batch) and tied "
+                 'by the differential run on the real fc_process / fc_apply. Thread exit / removed records / record freeing are outside the machine: decided by a quarantining allocator that checks '
+                 'at free time that the record is unreachable from the publication list (this found the compact_list defect, fixed).',
          'note': 'SC interleavings only (threads serialised by a baton at every atomic operation); memory orders not modelled; explored schedules only for the history/oracle/trace ties; Lean kernel '
-                 '+ propext/Classical.choice/Quot.sound. Liveness of a deactivated request: safety form only. Wait strategy backoff only.'},
+                 '+ propext/Classical.choice/Quot.sound. Liveness of a deactivated request: safety form only. Wait strategy backoff only; batch_combine outside the machine.'},
  'C04': {'category': 'proof',
          'note': 'SC interleavings only (threads serialised by a baton at every atomic operation); explored schedules only for the history/oracle ties; memory orders not modelled; Lean kernel + '
                  'propext/Classical.choice/Quot.sound. general_threaded and signal_buffered (OS thread / signals) are not run; std::mutex replaced by the spin lock through the template parameter; '
